@@ -590,6 +590,11 @@ def shard_cold(arg):
             pairs += [extra[0], extra[3], extra[-1]]
         pairs = pairs[i::16]
         pairs.sort(key=lambda pr: pr[0]["op"] != "bic")      # pairs that run through third-party frames first (costlier trials)
+        if i % 4 == 1:
+            # every fourth shard starts with a pair of method-91 accounts that only the same non-first variant accepts
+            p91 = variant91_pair(rng)
+            if p91:
+                pairs.insert(0, p91)
         for descs in pairs:
             if time.time() > t_end or rec.classes["loc-cold-schedules"] >= max_trials:
                 break
